@@ -158,7 +158,7 @@ func c09Cases(c runCfg) ([]*scratch.Pkg, []string, map[string]interface{}) {
 			var body *JS
 			bname := ""
 			if o.Method != "GET" {
-				switch rng.Intn(4) {
+				switch rng.Intn(5) {
 				case 0:
 					body = g.object(2, false)
 					body.Ref = fmt.Sprintf("Body%d", oi)
@@ -170,6 +170,19 @@ func c09Cases(c runCfg) ([]*scratch.Pkg, []string, map[string]interface{}) {
 					bname = fmt.Sprintf("Inline%d", oi)
 					o.Body = &dialect.Body{Content: "application/json", Schema: body.Dialect(&sp.CompSchemas), Required: true}
 					bodyKinds["json-inline"]++
+				case 3:
+					// through components.requestBodies (object by $ref or defined in place)
+					body = g.object(2, false)
+					if rng.Intn(2) == 0 {
+						body.Ref = fmt.Sprintf("CBody%d", oi)
+					}
+					bname = fmt.Sprintf("Comp%d", oi)
+					if sp.CompBodies == nil {
+						sp.CompBodies = map[string]dialect.Body{}
+					}
+					sp.CompBodies[bname] = dialect.Body{Content: "application/json", Schema: body.Dialect(&sp.CompSchemas), Required: true}
+					o.Body = &dialect.Body{Ref: bname}
+					bodyKinds["json-component"]++
 				case 2:
 					bname = "raw"
 					o.Body = &dialect.Body{Content: "application/octet-stream", Schema: &dialect.Schema{Type: "string", Format: "binary"}, Required: true}
